@@ -15,7 +15,7 @@ hvars == <<live, limbo>>
 HInit == live = [i \in {} |-> <<0, 0>>] /\ limbo = {}
 Disjoint(lo, hi, S) == \A i \in S : hi <= live[i][1] \/ live[i][2] <= lo
 Alloc(id, lo, hi, al, ms, ze) == /\ id \notin DOMAIN live /\ lo < hi /\ al = 1 /\ ms = 1 /\ ze = 1
-                                 /\ Disjoint(lo, hi, DOMAIN live)
+                                 /\ Disjoint(lo, hi, DOMAIN live \ limbo)          \* (a block whose realloc is in progress may already have been freed inside that call)
                                  /\ live' = [i \in DOMAIN live \cup {id} |-> IF i = id THEN <<lo, hi>> ELSE live[i]] /\ UNCHANGED limbo
 Free(id, pt) == /\ id \in DOMAIN live /\ id \notin limbo /\ pt = 1
                 /\ live' = [i \in DOMAIN live \ {id} |-> live[i]] /\ UNCHANGED limbo
@@ -26,6 +26,6 @@ ReallocE(id, res, nid, lo, hi, al, ms, pf) ==
     /\ id \in limbo /\ limbo' = limbo \ {id}
     /\ IF res = 0 THEN live' = live
        ELSE /\ lo < hi /\ al = 1 /\ ms = 1 /\ pf = 1 /\ nid \notin DOMAIN live \ {id}
-            /\ Disjoint(lo, hi, DOMAIN live \ {id})
+            /\ Disjoint(lo, hi, DOMAIN live \ (limbo \cup {id}))
             /\ live' = [i \in (DOMAIN live \ {id}) \cup {nid} |-> IF i = nid THEN <<lo, hi>> ELSE live[i]]
 =============================================================================
